@@ -12,7 +12,7 @@ extern unsigned long g_ts_from_header_result;
 /* TextMapCarrier / Context seen from a propagator: opaque */
 typedef struct xc_carrier { int xc_unused; } xc_carrier;
 typedef struct xc_ctx { unsigned long id; } xc_ctx;
-#define XC_MAX_GET 4
+#define XC_MAX_GET 5
 #define XC_MAX_SET 4
 #define XC_SET_CAP 64
 #define XC_KEY_CAP 16
